@@ -44,6 +44,9 @@ pub struct Note {
     pub text: String,
     /// an earlier (stale) full-document change sent in the same didChange before `text`
     pub stale: Option<String>,
+    /// the client closes the document and opens it again with this text (its version numbering
+    /// restarts at 1)
+    pub reopen: bool,
 }
 
 fn uris(dir: &str) -> [String; 2] {
@@ -56,6 +59,10 @@ fn script(dir: &str, notes: &[Note]) -> (Vec<Value>, Vec<(String, i64)>) {
     let mut version = [0i64; 2];
     let mut expect = vec![];
     for n in notes {
+        if n.reopen && version[n.uri_idx] >= 1 {
+            msgs.push(lsp_did_close(&u[n.uri_idx]));
+            version[n.uri_idx] = 0;
+        }
         version[n.uri_idx] += 1;
         let v = version[n.uri_idx];
         if v == 1 {
@@ -118,9 +125,9 @@ impl Refs {
         let mut notes = vec![];
         let o = 1 - u;
         if let Some(t) = &state[o] {
-            notes.push(Note { uri_idx: o, text: t.clone(), stale: None });
+            notes.push(Note { uri_idx: o, text: t.clone(), stale: None, reopen: false });
         }
-        notes.push(Note { uri_idx: u, text: state[u].clone().unwrap(), stale: None });
+        notes.push(Note { uri_idx: u, text: state[u].clone().unwrap(), stale: None, reopen: false });
         let (msgs, _) = script(&self.dir, &notes);
         // the reference itself is run twice; a disagreement between the two runs is C06's business
         let r1 = publications(&lsp_run(&msgs));
@@ -236,7 +243,7 @@ fn all_histories(max_len: usize) -> Vec<Vec<(usize, usize)>> {
 }
 
 fn to_notes(h: &[(usize, usize)]) -> Vec<Note> {
-    h.iter().map(|&(u, k)| Note { uri_idx: u, text: template(["a", "b"][u], ["b", "a"][u], k), stale: None }).collect()
+    h.iter().map(|&(u, k)| Note { uri_idx: u, text: template(["a", "b"][u], ["b", "a"][u], k), stale: None, reopen: false }).collect()
 }
 
 fn random_history(t: &mut Tape, gates: &Gates) -> Vec<Note> {
@@ -280,7 +287,8 @@ fn random_history(t: &mut Tape, gates: &Gates) -> Vec<Note> {
             let u = t.below(2);
             let d = t.below(docs[u].len());
             let stale = if t.ratio(1, 5) && gates.want("DID_CHANGE_WITH_TWO_CONTENT_CHANGES") { Some(docs[u][t.below(docs[u].len())].clone()) } else { None };
-            Note { uri_idx: u, text: docs[u][d].clone(), stale }
+            let reopen = t.ratio(1, 6) && gates.want("DOCUMENT_CLOSED_AND_REOPENED");
+            Note { uri_idx: u, text: docs[u][d].clone(), stale: if reopen { None } else { stale }, reopen }
         })
         .collect()
 }
@@ -315,7 +323,7 @@ pub fn run(ctx: &Ctx) -> i32 {
                 stats.inconclusive += 1;
                 Ok(())
             }
-            Err((k, d)) => Err(Failure::new("history", &k, d, json!({"history": notes.iter().map(|n| json!({"uri": (if n.uri_idx == 0 { "a.st" } else { "b.st" }), "text": n.text, "stale": n.stale})).collect::<Vec<_>>()}))),
+            Err((k, d)) => Err(Failure::new("history", &k, d, json!({"history": notes.iter().map(|n| json!({"uri": (if n.uri_idx == 0 { "a.st" } else { "b.st" }), "text": n.text, "stale": n.stale, "reopen": n.reopen})).collect::<Vec<_>>()}))),
         }
     });
     rep.add(out);
@@ -341,7 +349,7 @@ pub fn run(ctx: &Ctx) -> i32 {
                 stats.inconclusive += 1;
                 Ok(())
             }
-            Err((k, d)) => Err(Failure::new("history", &k, d, json!({"history": notes.iter().map(|n| json!({"uri": (if n.uri_idx == 0 { "a.st" } else { "b.st" }), "text": n.text, "stale": n.stale})).collect::<Vec<_>>()}))),
+            Err((k, d)) => Err(Failure::new("history", &k, d, json!({"history": notes.iter().map(|n| json!({"uri": (if n.uri_idx == 0 { "a.st" } else { "b.st" }), "text": n.text, "stale": n.stale, "reopen": n.reopen})).collect::<Vec<_>>()}))),
         }
     });
     rep.add(out);
@@ -366,7 +374,7 @@ pub fn witness(w: &Value) -> Result<(), String> {
         .cloned()
         .unwrap_or_default()
         .iter()
-        .map(|n| Note { uri_idx: if n["uri"] == "b.st" { 1 } else { 0 }, text: n["text"].as_str().unwrap_or("").to_string(), stale: n["stale"].as_str().map(String::from) })
+        .map(|n| Note { uri_idx: if n["uri"] == "b.st" { 1 } else { 0 }, text: n["text"].as_str().unwrap_or("").to_string(), stale: n["stale"].as_str().map(String::from), reopen: n["reopen"].as_bool().unwrap_or(false) })
         .collect();
     if notes.is_empty() {
         return Err("empty history".into());
